@@ -767,9 +767,8 @@ class EventSource(object):
                 continue
 
             if not line or self.closed:  # empty line or closed so attempt dispatch
-                if parts:
-                    edata = u'\n'.join(parts)
-                if edata:  # data so dispatch event by appending to .events
+                if parts:  # data field(s) so dispatch event by appending to .events
+                    edata = u'\n'.join(parts)  # empty when lone "data:" line
                     if self.dictable:
                         try:
                             ejson = json.loads(edata, object_pairs_hook=dict)
